@@ -1323,6 +1323,17 @@ def capacity_matches_allocation(prog, rule, units=("value.c",)):
                 if isinstance(l, dict) and l.get("k") == "ref":
                     multi.add(l["name"])
 
+        # fields of local structure variables (`temp.capacity = n`) with a single store that dominates the use
+        locals_ = {l["name"] for l in fn.locals}
+        pdefs, pmulti = {}, set()
+        for (b2, i2, r2, x) in fn.eval_sites("asg"):
+            lp2 = path(strip(x.get("lhs")))
+            if lp2 and "." in lp2 and "->" not in lp2 and "[" not in lp2 and lp2.split(".")[0] in locals_:
+                if lp2 in pdefs or x.get("op") != "=":
+                    pmulti.add(lp2)
+                pdefs[lp2] = (x.get("rhs"), b2.id, i2)
+        use_site = [None]
+
         def lin(e, depth=0):
             lf = _linear(e)
             if lf is None or depth > 4:
@@ -1331,6 +1342,13 @@ def capacity_matches_allocation(prog, rule, units=("value.c",)):
             for k2, v in lf.items():
                 if not k2:
                     continue
+                if k2 in pdefs and k2 not in pmulti and use_site[0] is not None and \
+                        cfgq.must_precede(fn, use_site[0], [(pdefs[k2][1], pdefs[k2][2])]):
+                    sub = lin(pdefs[k2][0], depth + 1)
+                    if sub is not None:
+                        for k3, v3 in sub.items():
+                            out[k3] = out.get(k3, 0) + v * v3
+                        continue
                 if k2 in defs and k2 not in multi:
                     sub = lin(defs[k2], depth + 1)
                     if sub is not None:
@@ -1379,7 +1397,9 @@ def capacity_matches_allocation(prog, rule, units=("value.c",)):
         all_allocs = allocs
         for (b, i, a, lp) in stores:
             n += 1
+            use_site[0] = (b.id, i)
             want = lin(a.get("rhs"))
+            use_site[0] = None
             key = "%s:L%s:%s" % (fn.name, a.get("l"), lp)
             owner = re.sub(r"(->|\.)capacity$", "", lp)
             allocs = [t for t in all_allocs if any(d.startswith(owner + "->") or d.startswith(owner + ".")
@@ -1572,14 +1592,30 @@ def run_counters(prog, rule, units=("parser.c",)):
     return n
 
 
-def stale_state_copies(prog, rule, unit, field, describe):
+def stale_state_copies(prog, rule, unit, field, describe, callbacks_clobber=True):
     """Locals that hold a value computed from the mutable state field `field` (e.g. the writer's last_column) must not be read
     after a call that may change the field, unless they were assigned again in between (from the field, or from values that
     are not themselves stale - the writer's `last_column = 0` after a successful write_newline()).  Forward may-dataflow per
     function, over all functions of `unit`; the set of calls that may change the field is the transitive closure of the
     functions that store to it.  Returns the number of derived locals examined."""
     def mentions_field(e):
-        return any(x.get("k") == "member" and x.get("name") == field for x in walk(e))
+        """the value of e depends on the field (mentions inside the argument list of a call do not count: the call's result
+        is the callee's business)"""
+        st = [e]
+        while st:
+            x = st.pop()
+            if not isinstance(x, dict):
+                continue
+            if x.get("k") == "member" and x.get("name") == field:
+                return True
+            if x.get("k") == "call":
+                continue
+            for k2 in ("e", "lhs", "rhs", "c", "then", "else", "base", "idx"):
+                if isinstance(x.get(k2), dict):
+                    st.append(x[k2])
+            for k2 in ("kids", "elems"):
+                st.extend(y for y in (x.get(k2) or []) if isinstance(y, dict))
+        return False
     writers = set()
     for f in prog.all_functions():
         for (b, i, r, a) in f.eval_sites("asg"):
@@ -1630,7 +1666,7 @@ def stale_state_copies(prog, rule, unit, field, describe):
                             reports.setdefault(x["name"], x)
                     elif k == "call":
                         c = x.get("callee")
-                        if c in writers or (c is None and x.get("fn") is not None):
+                        if c in writers or (callbacks_clobber and c is None and x.get("fn") is not None):
                             st |= D
                     elif k == "asg":
                         lp = path(strip(x.get("lhs")))
